@@ -495,6 +495,10 @@ def run(chk, repo, tier):
                     and 'previous_def' in unparse(a.value) and any(
                         isinstance(Lp, ast.For) and any(a is x for x in ast.walk(Lp)) and 'items' in unparse(Lp.iter)
                         for Lp in ast.walk(I))]
+        # the same rewrite as one expression: deps = {k: ((v - {s}) | previous_def) if s in v else v for k, v in deps.items()}
+        rewrites += [a for a in ast.walk(I) if isinstance(a, ast.Assign) and isinstance(a.value, ast.DictComp)
+                     and 'previous_def' in unparse(a.value.value)
+                     and any('items' in unparse(g_.iter) for g_ in a.value.generators)]
         chk.instance(D10, f'redefinition handled under `if {unparse(I.test)}` (extra conditions: {sorted(extra)})')
         chk.instance(D10, f'previous definition expanded into the other entries of the map: {bool(rewrites)}')
         if extra:
